@@ -1,0 +1,91 @@
+//go:build verif
+
+package download
+
+import (
+	"context"
+	"sync"
+	"time"
+
+	"github.com/33cn/chain33/queue"
+	"github.com/33cn/chain33/system/p2p/dht/protocol"
+	"github.com/libp2p/go-libp2p/core/peer"
+)
+
+// VerifDlHooks are the observation and scheduling points the conformance harness
+// (property C35, DESIGN.md hook H7b) attaches to one download Protocol instance.
+// This file only exists in builds with the tag "verif".
+type VerifDlHooks struct {
+	// Gate is called by the goroutine that reaches the named point of
+	// downloadBlock / checkTask / handleEventDownloadBlock; it may block.
+	// view, index and nums describe the caller's job list (only filled when View is set).
+	Gate func(point string, height int64, view []peer.ID, index []int, nums []int, picked peer.ID, err error)
+	// View asks for the job list at every gate.
+	View bool
+	// Timeout replaces the 10s request timeout of one (height, peer) request; 0 keeps it.
+	Timeout func(height int64, pid peer.ID) time.Duration
+	// NoSleep skips the 400ms back-off taken when no peer is available.
+	NoSleep bool
+}
+
+var verifDlReg sync.Map // *Protocol -> *VerifDlHooks
+
+// VerifNewProtocol builds a download Protocol on env without touching the global event
+// handler table (so that several instances can live in one process) and returns its
+// EventFetchBlocks handler and a function that forgets the instance.
+func VerifNewProtocol(env *protocol.P2PEnv, h *VerifDlHooks) (fetch func(*queue.Message), drop func()) {
+	p := &Protocol{P2PEnv: env, counter: NewCounter()}
+	if h != nil {
+		verifDlReg.Store(p, h)
+	}
+	return p.handleEventDownloadBlock, func() { verifDlReg.Delete(p) }
+}
+
+func verifDlHooksOf(p *Protocol) *VerifDlHooks {
+	v, ok := verifDlReg.Load(p)
+	if !ok {
+		return nil
+	}
+	return v.(*VerifDlHooks)
+}
+
+func verifDlGate(p *Protocol, point string, height int64, ts tasks, task *taskInfo, err error) {
+	h := verifDlHooksOf(p)
+	if h == nil || h.Gate == nil {
+		return
+	}
+	var view []peer.ID
+	var index, nums []int
+	if h.View {
+		for _, t := range ts {
+			t.mtx.Lock()
+			view = append(view, t.Pid)
+			index = append(index, t.Index)
+			nums = append(nums, t.TaskNum)
+			t.mtx.Unlock()
+		}
+	}
+	var picked peer.ID
+	if task != nil {
+		picked = task.Pid
+	}
+	h.Gate(point, height, view, index, nums, picked, err)
+}
+
+func verifDlCtx(p *Protocol, ctx context.Context, cancel context.CancelFunc, height int64, pid peer.ID) (context.Context, context.CancelFunc) {
+	h := verifDlHooksOf(p)
+	if h == nil || h.Timeout == nil {
+		return ctx, cancel
+	}
+	d := h.Timeout(height, pid)
+	if d <= 0 {
+		return ctx, cancel
+	}
+	c2, cancel2 := context.WithTimeout(ctx, d)
+	return c2, func() { cancel2(); cancel() }
+}
+
+func verifDlNoSleep(p *Protocol) bool {
+	h := verifDlHooksOf(p)
+	return h != nil && h.NoSleep
+}
